@@ -226,7 +226,7 @@ pub fn run_batch_wd(jobs: Vec<(String, Args)>, first_ms: u64, confirm_ms: u64) -
 }
 
 pub fn run(op: &str, a: &Args) -> Option<Args> {
-    if !matches!(op, "c08.outcome" | "c08.column" | "c08.thrift_meta" | "c08.schema_probe" | "c08.avro_longs" | "c08.ipc_batch") { return None }
+    if !matches!(op, "c08.outcome" | "c08.column" | "c08.thrift_meta" | "c08.schema_probe" | "c08.avro_longs" | "c08.ipc_batch" | "c08.dict_read") { return None }
     if let Ok(p) = std::env::var("C08_CHILD") { return run_child(op, a, &p) }
     if std::env::var("C08_INPROC").is_ok() { return run_local(op, a) }
     if let Some(o) = cache().lock().unwrap().get(&key(op, a)) { return Some(o.clone()) }
